@@ -233,6 +233,41 @@ fn create_doc_for_subexpression_considering_precedence_level(
   }
 }
 
+/// Whether the printed form of the expression ends with `.name` without type arguments.
+/// A `<` right after it would be parsed as the start of type arguments.
+fn ends_with_bare_member_access(expression: &expr::E<()>) -> bool {
+  match expression {
+    expr::E::FieldAccess(e) => e.explicit_type_arguments.is_none(),
+    expr::E::MethodAccess(e) => e.explicit_type_arguments.is_none(),
+    expr::E::Unary(e) => ends_with_bare_member_access(&e.argument),
+    expr::E::Binary(e) => ends_with_bare_member_access(&e.e2),
+    expr::E::Lambda(e) => ends_with_bare_member_access(&e.body),
+    _ => false,
+  }
+}
+
+fn create_doc_for_left_operand(
+  heap: &Heap,
+  comment_store: &CommentStore,
+  expression: &expr::E<()>,
+  binary: &expr::Binary<()>,
+  same_level: bool,
+) -> Document {
+  if binary.operator == expr::BinaryOperator::LT && ends_with_bare_member_access(&binary.e1) {
+    parenthesis_surrounded_doc(create_doc(heap, comment_store, &binary.e1))
+  } else if same_level {
+    create_doc(heap, comment_store, &binary.e1)
+  } else {
+    create_doc_for_subexpression_considering_precedence_level(
+      heap,
+      comment_store,
+      expression,
+      &binary.e1,
+      true,
+    )
+  }
+}
+
 /// Whether the expression is `x op y op z ...` with only `op` on its left spine,
 /// so that `a op (x op y op z)` can be printed as `a op x op y op z`.
 fn is_left_chain_of_operator(expression: &expr::E<()>, operator: expr::BinaryOperator) -> bool {
@@ -637,7 +672,7 @@ fn create_doc_without_preceding_comment(
       if e.e1.precedence() == expression.precedence() {
         // Since we are doing left to right evaluation, this is safe.
         return Document::concat(vec![
-          create_doc(heap, comment_store, &e.e1),
+          create_doc_for_left_operand(heap, comment_store, expression, e, true),
           operator_preceding_comments_docs,
           operator_doc,
           create_doc_for_subexpression_considering_precedence_level(
@@ -659,13 +694,7 @@ fn create_doc_without_preceding_comment(
           _ if !same_operator => {}
           _ => {
             return Document::concat(vec![
-              create_doc_for_subexpression_considering_precedence_level(
-                heap,
-                comment_store,
-                expression,
-                &e.e1,
-                true,
-              ),
+              create_doc_for_left_operand(heap, comment_store, expression, e, false),
               operator_preceding_comments_docs,
               operator_doc,
               create_doc(heap, comment_store, &e.e2),
@@ -675,13 +704,7 @@ fn create_doc_without_preceding_comment(
       }
       // Safest rule
       Document::concat(vec![
-        create_doc_for_subexpression_considering_precedence_level(
-          heap,
-          comment_store,
-          expression,
-          &e.e1,
-          true,
-        ),
+        create_doc_for_left_operand(heap, comment_store, expression, e, false),
         operator_preceding_comments_docs,
         operator_doc,
         create_doc_for_subexpression_considering_precedence_level(
